@@ -1,4 +1,76 @@
-import Heathcliff.Model.Scheme
+import Heathcliff.Proofs.C01J
+
+/- Property theorems only (statements verbatim; proofs are the helper lemmas of Heathcliff/Proofs). -/
 namespace HC.C01
-theorem placeholder : trimPlain #[1, 0, 0] = #[1] := by decide
+open HC
+open Finset
+variable {R : Type} [CommRing R]
+
+/-- it is the nearest integer to q·m/t (ties up):  ⌊(q·m + ⌊(t+1)/2⌋)/t⌋ -/
+theorem deltaM_eq (q t m : Nat) (ht : 0 < t) : deltaM q t m = (q * m + (t + 1) / 2) / t := HC.deltaM_eq q t m ht
+
+/-- |t·Δ(m) − q·m| ≤ t/2 + 1/2, i.e. the rounding error of the scaling is at most (t+1)/2 -/
+theorem deltaM_err (q t m : Nat) (ht : 0 < t) :
+    ((t * deltaM q t m : Nat) : Int) - (q * m : Nat) ≤ (t + 1) / 2 ∧ (q * m : Nat) - ((t * deltaM q t m : Nat) : Int) ≤ t / 2 := HC.deltaM_err q t m ht
+
+/-- BFV SCALE ROUND TRIP: for every q, t ≥ 2, m < t and every noise v with 2·t·(|v| + 1) < q:
+    decoding (Δ(m) + v) mod q — centred lift, multiply by t, divide by q with rounding, reduce mod t — returns m.
+    Covers upper-half values, q mod t ≠ 0, t a power of two, t larger than a prime factor of q. -/
+theorem bfv_scale_round_trip {q t m : Nat} {v : Int} (ht : 2 ≤ t) (hm : m < t) (hv : 2 * t * (v.natAbs + 1) < q) :
+    Spec.imod (Spec.roundDiv (t * Spec.centred (Spec.imod ((deltaM q t m : Int) + v) q) q) q) t = m := HC.bfv_scale_round_trip ht hm hv
+
+/-- BGV ROUND TRIP: phase = lift(m) + t·v with |lift(m) + t·v| < q/2 decodes (centred mod q, then mod t) to m -/
+theorem bgv_round_trip {q t m : Nat} {v : Int} (ht : 2 ≤ t) (hm : m < t) (hq : 2 * (t * (v.natAbs + 1)) < q) :
+    Spec.imod (Spec.centred (Spec.imod (bgvLift t m + t * v) q) q) t = m := HC.bgv_round_trip ht hm hq
+
+/-- public-key encryption: pk = (−(a·s + e), a), ct = (pk0·u + e0 + M, pk1·u + e1): phase = M − e·u + e0 + e1·s -/
+theorem phase_fresh_pk (a s e u e0 e1 M : R) :
+    ((-(a * s + e)) * u + e0 + M) + (a * u + e1) * s = M - e * u + e0 + e1 * s := HC.phase_fresh_pk a s e u e0 e1 M
+
+/-- secret-key encryption: ct = (−(a·s + e) + M, a): phase = M − e -/
+theorem phase_fresh_sk (a s e M : R) : (-(a * s + e) + M) + a * s = M - e := HC.phase_fresh_sk a s e M
+
+/-- BGV variants: errors enter multiplied by t -/
+theorem phase_fresh_pk_bgv (a s e u e0 e1 M t : R) :
+    ((-(a * s + t * e)) * u + t * e0 + M) + (a * u + t * e1) * s = M + t * (- e * u + e0 + e1 * s) := HC.phase_fresh_pk_bgv a s e u e0 e1 M t
+
+/-- ‖a·b mod (X^n+1)‖∞ ≤ n·‖a‖∞·‖b‖∞ for integer coefficient vectors (negMulR over ℤ) -/
+theorem negMul_norm_le (n : Nat) (a b : Nat → Int) (A B : Nat)
+    (ha : ∀ i, i < n → (a i).natAbs ≤ A) (hb : ∀ i, i < n → (b i).natAbs ≤ B) :
+    ∀ c, c < n → (negMulR n a b c).natAbs ≤ n * A * B := HC.negMul_norm_le n a b A B ha hb
+
+/-- FRESH NOISE: with ternary u, s (‖·‖ ≤ 1) and errors bounded by 21 (C16: `cbd_bound`) the fresh public-key noise
+    −e·u + e0 + e1·s has infinity norm ≤ 21·(2n + 1); the secret-key noise ≤ 21 -/
+theorem fresh_noise_bound (n : Nat) (e u e0 e1 s : Nat → Int)
+    (he : ∀ i, i < n → (e i).natAbs ≤ 21) (he0 : ∀ i, i < n → (e0 i).natAbs ≤ 21) (he1 : ∀ i, i < n → (e1 i).natAbs ≤ 21)
+    (hu : ∀ i, i < n → (u i).natAbs ≤ 1) (hs : ∀ i, i < n → (s i).natAbs ≤ 1) :
+    ∀ c, c < n → (- negMulR n e u c + e0 c + negMulR n e1 s c).natAbs ≤ 21 * (2 * n + 1) := HC.fresh_noise_bound n e u e0 e1 s he he0 he1 hu hs
+
+theorem decrypt_fresh_bfv {n q t m : Nat} {v : Int} (ht : 2 ≤ t) (hm : m < t) (hok : FreshOK n t q)
+    (hv : v.natAbs ≤ 21 * (2 * n + 1)) :
+    Spec.imod (Spec.roundDiv (t * Spec.centred (Spec.imod ((deltaM q t m : Int) + v) q) q) q) t = m := HC.decrypt_fresh_bfv ht hm hok hv
+
+/-- MODEL LINK: the coefficient `multiply_add_plain` adds in component j is Δ(m) mod q_j, for a well-formed modulus and
+    the context constants ⌊Q/t⌋ mod q_j (as Harvey operand), Q mod t, ⌊(t+1)/2⌋ -/
+theorem multiplyAddPlain_coeff {mq : Modulus} (hq : mq.WF) {Q t m d : Nat} (ht : 2 ≤ t) (ht64 : t < 2^61) (hm : m < t)
+    (hd : d < mq.value) {op : MulOperand} (hop : WFOp mq op) (hopv : op.operand = (Q / t) % mq.value) :
+    (do
+      let lo := mulLo m (Q % t)
+      let hi := mulHi m (Q % t)
+      let (n0, carry) := addU64 lo ((t + 1) / 2)
+      let n1 ← ckAdd hi carry
+      let fix := ((n0 + B64 * n1) / t) % B64
+      let sc ← mulOperandAddMod m op fix mq
+      addMod d sc mq) = .ok ((d + deltaM Q t m) % mq.value) := HC.multiplyAddPlain_coeff hq ht ht64 hm hd hop hopv
+
+/-- correction factor (BGV): decoding multiplies by cf^{-1} mod t.  The statement for arbitrarily large t is false only because the
+    *spec-side* Euclid loop has bounded fuel (refuted in Proofs/C01J.lean); it is proved for every t < 2^199 (the library has t < 2^61). -/
+theorem bgv_round_trip_cf_bounded {q t m cf : Nat} {v : Int} (ht : 2 ≤ t) (ht199 : t < 2 ^ 199) (hm : m < t) (hcf : Nat.Coprime cf t)
+    (hq : 2 * (t * (v.natAbs + 1)) < q) {x : Int} (hx : x = bgvLift t ((cf * m) % t) + t * v) :
+    (Spec.imod (Spec.centred (Spec.imod x q) q) t * Spec.invMod cf t) % t = m :=
+  HC.bgv_round_trip_cf_bounded ht ht199 hm hcf hq hx
+
+/-- non-vacuity of the BFV round trip: q = 2^40, t = 17, m = 16 (upper half), v = -3 -/
+example : 2 * 17 * ((-3 : Int).natAbs + 1) < 2^40 := by decide
+
 end HC.C01
